@@ -447,6 +447,22 @@ gen_c02_scaled (gen_t *g, rng_t *r, scenario_t *sc)
 	sc_addv (sc, MOP_SET_TRANSFORM, 14, a);
 	sc_addv (sc, MOP_SET_FILTER, 9, f);
 	sc_addv (sc, MOP_SET_REPEAT, 5, rp);
+	if (i && rng_chance (r, 1, 2)) { sc->n_ops -= 3; }      /* same sampling state as the request before: dispatch-cache hits */
+	switch (rng_n (r, 4))
+	{
+	case 0:
+	    /* the a8 mask sampled exactly like the source: equal flag words for source and mask */
+	    a[3] = f[3] = rp[3] = 3;
+	    sc_addv (sc, MOP_SET_TRANSFORM, 14, a); sc_addv (sc, MOP_SET_FILTER, 9, f); sc_addv (sc, MOP_SET_REPEAT, 5, rp);
+	    break;
+	case 1:
+	{
+	    int64_t t0[14] = { 0, 0, 0, 3, 1 }, f0[9] = { 0, 0, 0, 3, PIXMAN_FILTER_NEAREST, 1, 1, 0, 0 }, r0[5] = { 0, 0, 0, 3, 0 };
+	    sc_addv (sc, MOP_SET_TRANSFORM, 14, t0); sc_addv (sc, MOP_SET_FILTER, 9, f0); sc_addv (sc, MOP_SET_REPEAT, 5, r0);
+	    break;
+	}
+	default: break;
+	}
 	gen_composite (g, 0, 2, mask, 0);
 	sc->ops[sc->n_ops - 1].a[M_PREFIX] = ops[rng_n (r, 5)];
     }
@@ -581,7 +597,7 @@ gen_c04_fit (gen_t *g, rng_t *r, scenario_t *sc)
 {
     static const pixman_format_code_t mf[] = { PIXMAN_a1, PIXMAN_a8, PIXMAN_a1, PIXMAN_a4, PIXMAN_a8r8g8b8 };
     static const pixman_format_code_t sf[] = { PIXMAN_a8r8g8b8, PIXMAN_x8r8g8b8, PIXMAN_r5g6b5, PIXMAN_a8, PIXMAN_a1, PIXMAN_r8g8b8, PIXMAN_a1r5g5b5, PIXMAN_a4r4g4b4 };
-    static const pixman_format_code_t df[] = { PIXMAN_a8r8g8b8, PIXMAN_x8r8g8b8, PIXMAN_r5g6b5, PIXMAN_a8, PIXMAN_a8b8g8r8, PIXMAN_r8g8b8 };
+    static const pixman_format_code_t df[] = { PIXMAN_a8r8g8b8, PIXMAN_x8r8g8b8, PIXMAN_r5g6b5, PIXMAN_a8, PIXMAN_a1, PIXMAN_r8g8b8 };
     static const int ws[] = { 32, 64, 96, 128, 31, 33, 16, 8, 24, 48, 1, 7 };
     static const int ops[] = { 3, 1, 12, 3, 8, 5 };
     uint32_t chains = (1u << REF_CHAIN) | 1u;
@@ -602,6 +618,56 @@ gen_c04_fit (gen_t *g, rng_t *r, scenario_t *sc)
 	int src = rng_chance (r, 1, 2) ? 4 : 2, mask = rng_chance (r, 2, 3) ? 3 : -1;
 	int off = rng_chance (r, 1, 2) ? 0 : (int)rng_range (r, 0, W - 1), offy = rng_chance (r, 2, 3) ? 0 : (int)rng_range (r, 0, H - 1);
 	int64_t c[16] = { 0, 0, 0, ops[rng_n (r, 6)], src, mask, 0, off, offy, off, offy, rng_chance (r, 1, 2) ? 0 : off, offy, W - off, H - offy };
+	if (rng_chance (r, 1, 4))
+	{
+	    /* solid fills that end exactly at the end of the last row */
+	    int64_t fb[16] = { 0, 0, 0, rng_chance (r, 1, 2) ? 1 : 3, 0, 65535, rng_range (r, 0, 65535), 0, 65535, 1, off, offy, W, H };
+	    int64_t fl[9] = { 0, 0, 0, 0, off, offy, W - off, H - offy, (int64_t)(rng_u64 (r) & 0xffffffffu) };
+	    if (rng_chance (r, 1, 2)) sc_addv (sc, MOP_FILL_BOXES, 14, fb); else sc_addv (sc, MOP_FILL, 9, fl);
+	    continue;
+	}
+	sc_addv (sc, MOP_COMPOSITE, 15, c);
+    }
+}
+
+/* scaled exact-fit: an integer (or 1/integer) scale, translations of 0, +-1/65536 and
+ * +-1/2, every repeat mode, NEAREST or BILINEAR, requests whose width is exactly what the
+ * scale makes of the source (and one more, and one less, odd and even), ending at the last
+ * pixel of the last row of an unpadded source that sits flush against the guard page */
+static void
+gen_c04_scaled_fit (gen_t *g, rng_t *r, scenario_t *sc)
+{
+    static const pixman_format_code_t sf[] = { PIXMAN_a8r8g8b8, PIXMAN_x8r8g8b8, PIXMAN_r5g6b5, PIXMAN_a8, PIXMAN_a8r8g8b8 };
+    static const pixman_format_code_t df[] = { PIXMAN_a8r8g8b8, PIXMAN_x8r8g8b8, PIXMAN_r5g6b5, PIXMAN_a8r8g8b8 };
+    static const int ops[] = { 1, 3, 12, 5, 7, 11, 3, 12 };
+    static const int64_t eps[] = { 0, 0, 1, -1, 32768, -32768, 32767, 32769, 2, 65535 };
+    uint32_t chains = (1u << REF_CHAIN) | 1u | (1u << CHAIN_SSE2) | (1u << (CHAIN_SSE2 | CHAIN_SSSE3));
+    int SW = (int)rng_range (r, 1, 24), SH = (int)rng_range (r, 1, 4), k, fi[2], i, n_req = (int)rng_range (r, 3, 8);
+    int num = (int)rng_range (r, 1, 4), den = (int)rng_range (r, 1, 4);         /* destination = source * num / den */
+    int64_t sx = (int64_t)65536 * den / num, sy = rng_chance (r, 1, 2) ? 65536 : sx;
+    int DWI = SW * num / den + 3, DHI = (sy == 65536 ? SH : SH * num / den + 2);
+    pixman_format_code_t want[2];
+    if (DWI < 1) DWI = 1;
+    if (DHI < 1) DHI = 1;
+    for (k = 0; k < 4; k++) chains |= 1u << rng_n (r, N_CHAINS);
+    sc_set (sc, "chains", chains);
+    want[0] = df[rng_n (r, 4)]; want[1] = sf[rng_n (r, 5)];
+    for (k = 0; k < 2; k++) for (fi[k] = 0; fi[k] < sim_n_formats - 1; fi[k]++) if (sim_formats[fi[k]] == want[k]) break;
+    gen_bits_exact (g, 0, fi[0], DWI + 2, DHI + 1, 0, 0, (int)rng_n (r, 16), 8 * (int)rng_n (r, 2));
+    gen_bits_exact (g, 2, fi[1], SW, SH, 0, rng_chance (r, 1, 6), 0, 8 * (int)rng_n (r, 2));
+    for (k = 0; k < sim_n_formats; k++) if (sim_formats[k] == PIXMAN_a8) break;
+    gen_bits_exact (g, 3, k, DWI + 2, DHI + 1, 0, 0, 0, 8);
+    for (i = 0; i < n_req; i++)
+    {
+	int64_t a[14] = { 0, 0, 0, 2, 0, sx, 0, eps[rng_n (r, 10)], 0, sy, eps[rng_n (r, 10)], 0, 0, 65536 };
+	int64_t f[9] = { 0, 0, 0, 2, rng_chance (r, 1, 2) ? PIXMAN_FILTER_NEAREST : PIXMAN_FILTER_BILINEAR, 1, 1, 0, 0 };
+	int64_t rp[5] = { 0, 0, 0, 2, rng_n (r, 4) };
+	int w = SW * num / den + (int)rng_range (r, -1, 1), h = (sy == 65536 ? SH : SH * num / den) + (int)rng_range (r, -1, 0);
+	int64_t c[16] = { 0, 0, 0, ops[rng_n (r, 8)], 2, rng_chance (r, 1, 3) ? 3 : -1, 0, 0, 0, 0, 0, rng_n (r, 3), rng_n (r, 2), w < 1 ? 1 : w, h < 1 ? 1 : h };
+	if (rng_chance (r, 1, 3)) { a[7] += (int64_t)rng_range (r, 0, SW) * 65536; }
+	sc_addv (sc, MOP_SET_TRANSFORM, 14, a);
+	sc_addv (sc, MOP_SET_FILTER, 9, f);
+	sc_addv (sc, MOP_SET_REPEAT, 5, rp);
 	sc_addv (sc, MOP_COMPOSITE, 15, c);
     }
 }
@@ -695,7 +761,15 @@ generate (uint64_t seed, int tier, const char *property, scenario_t *sc)
     gen_t g;
     rng_seed (&r, seed, 3);
     gen_init (&g, &r, sc, 0, 0);
-    if (property && !strcmp (property, "C04")) { if (rng_chance (&r, 1, 4)) gen_c04_fit (&g, &r, sc); else gen_c04 (&g, &r, sc); }
+    if (property && !strcmp (property, "C04"))
+    {
+	switch (rng_n (&r, 5))
+	{
+	case 0: gen_c04_fit (&g, &r, sc); break;
+	case 1: gen_c04_scaled_fit (&g, &r, sc); break;
+	default: gen_c04 (&g, &r, sc); break;
+	}
+    }
     else if (property && !strcmp (property, "C19")) gen_c19 (&g, &r, sc);
     else if (rng_chance (&r, 1, 4)) gen_c02_scaled (&g, &r, sc);
     else gen_c02 (&g, &r, sc);
